@@ -238,9 +238,14 @@ TriggerTypenameNotCounted(C) == \E j \in OpIdx(C) : HasTypename(C, C.doc.ops[j].
 (*                       is evaluated in polynomial time: the table holds    *)
 (*                       the work of every fragment, built bottom-up.        *)
 (***************************************************************************)
-Work(sel, fld, rd, md, spr) == [sel |-> sel, fld |-> fld, rd |-> rd, md |-> md, spr |-> spr]
-ZeroWork == Work(0, 0, 0, 0, 0)
-AddWork(a, b) == Work(a.sel + b.sel, a.fld + b.fld, a.rd + b.rd, a.md + b.md, a.spr + b.spr)
+\* counters saturate at 2^29 (TLC integers are 32-bit; real requests are sized below 2^20, only the tables of very long
+\* chains that are refused by a limit get this far)
+SatCap == 536870912
+Sat(x) == IF x > SatCap THEN SatCap ELSE x
+\* h = nesting height of the selection sets below (what check_recursive_depth bounds), dm = most directives on one field below
+Work(sel, fld, rd, md, spr, h, dm) == [sel |-> Sat(sel), fld |-> Sat(fld), rd |-> Sat(rd), md |-> Sat(md), spr |-> Sat(spr), h |-> h, dm |-> dm]
+ZeroWork == Work(0, 0, 0, 0, 0, 0, 0)
+AddWork(a, b) == Work(a.sel + b.sel, a.fld + b.fld, a.rd + b.rd, a.md + b.md, a.spr + b.spr, Max(a.h, b.h), Max(a.dm, b.dm))
 
 RECURSIVE Walk(_, _, _, _)
 Walk(C, sels, i, tbl) ==
@@ -253,12 +258,14 @@ Walk(C, sels, i, tbl) ==
                     (IF IsTypename(s) THEN 0 ELSE 1) + sub.fld,           \* visit_field is not called for __typename
                     IF s.sels = <<>> THEN 0 ELSE 1 + sub.rd,                \* check_recursive_depth skips empty sets
                     1 + sub.md,                                            \* check_max_directives enters every field's set
-                    sub.spr)
+                    sub.spr,
+                    IF s.sels = <<>> THEN 0 ELSE 1 + sub.h,
+                    Max(Len(s.dirs), sub.dm))
              ELSE IF s.k = "inline" THEN
-               LET sub == Walk(C, s.sels, 1, tbl) IN Work(1 + sub.sel, sub.fld, 1 + sub.rd, 1 + sub.md, sub.spr)
-             ELSE IF ~HasFrag(C, s.name) THEN Work(1, 0, 0, 0, 0)
+               LET sub == Walk(C, s.sels, 1, tbl) IN Work(1 + sub.sel, sub.fld, 1 + sub.rd, 1 + sub.md, sub.spr, 1 + sub.h, sub.dm)
+             ELSE IF ~HasFrag(C, s.name) THEN Work(1, 0, 0, 0, 0, 0, 0)
              ELSE LET body == IF s.name \in DOMAIN tbl THEN tbl[s.name] ELSE Walk(C, Frag(C, s.name).sels, 1, tbl)
-                  IN Work(1 + body.sel, body.fld, 1 + body.rd, 1 + body.md, 1 + body.spr)
+                  IN Work(1 + body.sel, body.fld, 1 + body.rd, 1 + body.md, 1 + body.spr, 1 + body.h, body.dm)
        IN AddWork(here, Walk(C, sels, i + 1, tbl))
 
 EmptyTbl == <<>>                                    \* DOMAIN = {} : nothing is remembered
@@ -333,6 +340,97 @@ WithinBound(v, b) == \A i \in 1..Len(v) : v[i] <= b
 TriggerNoMemo(C) == SumWork(C, OpLists(C), 1, CostTbl(C)).spr > Len(C.doc.frags)
 
 ----------------------------------------------------------------------------
+(* The two schema.rs walkers stop at the first violation of their limit (the request is then       *)
+(* refused and nothing after them runs); the validation passes never stop early (their limits are  *)
+(* compared after the walk).  cfg = [recursive |-> L (negative: the default 32), directives |-> D   *)
+(* (negative: not configured, check_max_directives does not run)].                                  *)
+(* RdStop / MdStop: the code as written -- calls made for the sets below sels[i..] of a set at      *)
+(* `depth`, and whether the walk stopped.  RdStopF / MdStopF: the same numbers in polynomial time:  *)
+(* a sub-tree that cannot violate (height / directive table) is charged its full table cost, the    *)
+(* first one that must violate is entered.                                                          *)
+EffL(cfg) == IF cfg.recursive < 0 THEN 32 ELSE cfg.recursive
+ChildSet(C, s) == IF s.k = "spread" THEN SpreadSels(C, s) ELSE s.sels
+\* does the walker recurse for this selection?
+RdEnters(C, s) == IF s.k = "field" THEN s.sels # <<>> ELSE IF s.k = "inline" THEN TRUE ELSE HasFrag(C, s.name)
+MdEnters(C, s) == IF s.k = "spread" THEN HasFrag(C, s.name) ELSE TRUE
+Go(n) == [n |-> n, stop |-> FALSE]
+Halt(n) == [n |-> n, stop |-> TRUE]
+
+RECURSIVE RdStop(_, _, _, _, _)
+RdStop(C, sels, i, depth, L) ==
+  IF i > Len(sels) THEN Go(0)
+  ELSE LET s == sels[i]
+           r == IF ~RdEnters(C, s) THEN Go(0)
+                ELSE IF depth + 1 > L THEN Halt(1)                          \* the call that finds current_depth > max_depth
+                ELSE LET q == RdStop(C, ChildSet(C, s), 1, depth + 1, L) IN [n |-> Sat(1 + q.n), stop |-> q.stop]
+       IN IF r.stop THEN r ELSE LET rest == RdStop(C, sels, i + 1, depth, L) IN [n |-> Sat(r.n + rest.n), stop |-> rest.stop]
+
+RECURSIVE RdStopF(_, _, _, _, _, _)
+RdStopF(C, sels, i, depth, L, tbl) ==
+  IF i > Len(sels) THEN Go(0)
+  ELSE LET s == sels[i]
+           w == Walk(C, ChildSet(C, s), 1, tbl)
+           r == IF ~RdEnters(C, s) THEN Go(0)
+                ELSE IF depth + 1 + w.h <= L THEN Go(1 + w.rd)             \* nothing below can violate: full cost
+                ELSE IF depth + 1 > L THEN Halt(1)
+                ELSE Halt(Sat(1 + RdStopF(C, ChildSet(C, s), 1, depth + 1, L, tbl).n))
+       IN IF r.stop THEN r ELSE LET rest == RdStopF(C, sels, i + 1, depth, L, tbl) IN [n |-> Sat(r.n + rest.n), stop |-> rest.stop]
+
+RECURSIVE MdStop(_, _, _, _)
+MdStop(C, sels, i, D) ==
+  IF i > Len(sels) THEN Go(0)
+  ELSE LET s == sels[i]
+           r == IF s.k = "field" /\ Len(s.dirs) > D THEN Halt(0)            \* found before the field's set is entered
+                ELSE IF ~MdEnters(C, s) THEN Go(0)
+                ELSE LET q == MdStop(C, ChildSet(C, s), 1, D) IN [n |-> Sat(1 + q.n), stop |-> q.stop]
+       IN IF r.stop THEN r ELSE LET rest == MdStop(C, sels, i + 1, D) IN [n |-> Sat(r.n + rest.n), stop |-> rest.stop]
+
+RECURSIVE MdStopF(_, _, _, _, _)
+MdStopF(C, sels, i, D, tbl) ==
+  IF i > Len(sels) THEN Go(0)
+  ELSE LET s == sels[i]
+           w == Walk(C, ChildSet(C, s), 1, tbl)
+           r == IF s.k = "field" /\ Len(s.dirs) > D THEN Halt(0)
+                ELSE IF ~MdEnters(C, s) THEN Go(0)
+                ELSE IF w.dm <= D THEN Go(1 + w.md)
+                ELSE Halt(Sat(1 + MdStopF(C, ChildSet(C, s), 1, D, tbl).n))
+       IN IF r.stop THEN r ELSE LET rest == MdStopF(C, sels, i + 1, D, tbl) IN [n |-> Sat(r.n + rest.n), stop |-> rest.stop]
+
+\* over the operations, in order (several operations are walked in hash order by the code: the families keep them alike)
+RECURSIVE RdOps(_, _, _, _, _), MdOps(_, _, _, _, _)
+RdOps(C, j, L, fast, tbl) ==
+  IF j > Len(C.doc.ops) THEN Go(0)
+  ELSE LET q == IF fast THEN RdStopF(C, C.doc.ops[j].sels, 1, 0, L, tbl) ELSE RdStop(C, C.doc.ops[j].sels, 1, 0, L)
+       IN IF q.stop THEN Halt(1 + q.n) ELSE LET rest == RdOps(C, j + 1, L, fast, tbl) IN [n |-> Sat(1 + q.n + rest.n), stop |-> rest.stop]
+MdOps(C, j, D, fast, tbl) ==
+  IF j > Len(C.doc.ops) THEN Go(0)
+  ELSE LET q == IF fast THEN MdStopF(C, C.doc.ops[j].sels, 1, D, tbl) ELSE MdStop(C, C.doc.ops[j].sels, 1, D)
+       IN IF q.stop THEN Halt(1 + q.n) ELSE LET rest == MdOps(C, j + 1, D, fast, tbl) IN [n |-> Sat(1 + q.n + rest.n), stop |-> rest.stop]
+
+\* work of one request under cfg; `full` = the five counters when no walker stops
+VisitsAt(C, cfg, fast, full) ==
+  LET tbl == IF fast THEN CostTbl(C) ELSE EmptyTbl
+      rd  == RdOps(C, 1, EffL(cfg), fast, tbl)
+      md  == IF cfg.directives < 0 THEN Go(0) ELSE MdOps(C, 1, cfg.directives, fast, tbl)
+  IN IF rd.stop THEN <<0, 0, rd.n, 0, 0>>                                  \* refused by check_recursive_depth
+     ELSE IF md.stop THEN <<0, 0, rd.n, md.n, 0>>                          \* refused by check_max_directives
+     ELSE <<full[1], full[2], rd.n, md.n, full[5]>>
+Visits_asCodedAt(C, cfg)     == VisitsAt(C, cfg, FALSE, VisitsWith(C, EmptyTbl, FALSE))    \* the definition
+Visits_asCodedFastAt(C, cfg) == VisitsAt(C, cfg, TRUE, VisitsWith(C, CostTbl(C), FALSE))   \* through the tables
+\* memoised ideal: it stops at the first violation as well, so its work is at most the full ideal work of the walkers that ran
+Visits_idealAt(C, cfg) ==
+  LET c == Visits_asCodedFastAt(C, cfg) i == Visits_ideal(C) IN
+  IF c[1] = 0 /\ c[4] = 0 /\ c[5] = 0 /\ c[3] > 0 /\ RdOps(C, 1, EffL(cfg), TRUE, CostTbl(C)).stop THEN <<0, 0, i[3], 0, 0>>
+  ELSE IF cfg.directives >= 0 /\ MdOps(C, 1, cfg.directives, TRUE, CostTbl(C)).stop THEN <<0, 0, i[3], i[4], 0>>
+  ELSE IF cfg.directives < 0 THEN <<i[1], i[2], i[3], 0, i[5]>> ELSE i
+\* trigger of DevNoMemo for one request: a fragment is expanded more than once by the operations, and re-visiting is what
+\* the request's as-coded work consists of -- some walker that ran did more than visiting every fragment body once costs.
+\* A request refused by a limit before the fan-out is walked is not in the trigger class.
+TriggerNoMemoAt(C, cfg) ==
+  /\ TriggerNoMemo(C)
+  /\ LET c == Visits_asCodedFastAt(C, cfg) i == Visits_idealAt(C, cfg) IN \E k \in 1..4 : c[k] > i[k]
+
+----------------------------------------------------------------------------
 (* Adversarial families (mode M and the harness run the same documents).    *)
 Fld(name, alias, sels) == [k |-> "field", name |-> name, alias |-> alias, args |-> <<>>, dirs |-> <<>>, sels |-> sels]
 Inl(on, sels) == [k |-> "inline", on |-> on, dirs |-> <<>>, sels |-> sels]
@@ -353,8 +451,16 @@ DeepInline(n) == [ops |-> <<Op("", Nest(n))>>, frags |-> <<>>]
 \* n operations spreading one fragment of n fields
 ManyOps(n) == [ops |-> [i \in 1..n |-> Op("Q" \o ToString(i), <<Spr("f1")>>)],
                frags |-> <<FragDef("f1", "Query", [i \in 1..n |-> Fld("n", "x" \o ToString(i), <<>>)])>>]
+\* three like operations over one fan-out chain (refusal happens in the first one walked)
+FanOutOps(n) == [ops |-> [i \in 1..3 |-> Op("Q" \o ToString(i), <<Spr(FN(1))>>)], frags |-> FanOut(n).frags]
+\* a fan-out chain behind / in front of a field that carries two directives (refused by limit_directives(1))
+TwoDirs == <<[name |-> "skip", val |-> [k |-> "bool", v |-> FALSE]], [name |-> "include", val |-> [k |-> "bool", v |-> TRUE]]>>
+DirFirst(n) == [ops |-> <<Op("", <<[Fld("n", "x", <<>>) EXCEPT !.dirs = TwoDirs], Spr(FN(1))>>)>>, frags |-> FanOut(n).frags]
+DirLast(n)  == [ops |-> <<Op("", <<Spr(FN(1))>>)>>,
+                frags |-> [i \in 1..n |-> IF i < n THEN FanOut(n).frags[i] ELSE FragDef(FN(n), "Query", <<[Fld("n", "", <<>>) EXCEPT !.dirs = TwoDirs]>>)]]
 Families == {"fanout", "wide", "deepinline", "manyops"}
 Family(name, n) == CASE name = "fanout" -> FanOut(n) [] name = "wide" -> Wide(n) [] name = "deepinline" -> DeepInline(n) [] name = "manyops" -> ManyOps(n)
+                     [] name = "fanoutops" -> FanOutOps(n) [] name = "dirfirst" -> DirFirst(n) [] name = "dirlast" -> DirLast(n)
 \* a context for work counting needs only the document
 WorkCtx(doc) == [doc |-> doc, op |-> doc.ops[1]]
 =============================================================================
